@@ -19,15 +19,23 @@ type PNest struct {
 	S  string
 }
 
+// PName: a named string type is a string as far as case constraints go (it can be neither indexed
+// nor searched: sod answers "unknown key type", which is not judged here).
+type PName string
+
 type PtrRec struct {
 	sod.Item
 	K  int
 	PS *string
 	PN *PNest
 	V  PNest
+	NS PName
 }
 
-var ptrPaths = []string{"PS", "PN.PS", "PN.S", "V.PS", "V.S"}
+var ptrPaths = []string{"PS", "PN.PS", "PN.S", "V.PS", "V.S", "NS"}
+
+// ptrSearchPaths: the paths of ptrPaths a search can be evaluated on.
+var ptrSearchPaths = []string{"PS", "PN.PS", "PN.S", "V.PS", "V.S"}
 
 func (p *PtrRec) leaf(path string) string {
 	d := func(s *string) string {
@@ -53,6 +61,8 @@ func (p *PtrRec) leaf(path string) string {
 		return d(p.V.PS)
 	case "V.S":
 		return p.V.S
+	case "NS":
+		return string(p.NS)
 	}
 	panic("harness: PtrRec path " + path)
 }
@@ -78,7 +88,7 @@ func ptrClone(x *PtrRec) *PtrRec {
 		v := *s
 		return &v
 	}
-	y := &PtrRec{Item: x.Item, K: x.K, PS: c(x.PS), V: PNest{PS: c(x.V.PS), S: x.V.S}}
+	y := &PtrRec{Item: x.Item, K: x.K, PS: c(x.PS), V: PNest{PS: c(x.V.PS), S: x.V.S}, NS: x.NS}
 	if x.PN != nil {
 		y.PN = &PNest{PS: c(x.PN.PS), S: x.PN.S}
 	}
@@ -151,7 +161,7 @@ func (w *World) ptrScenario(gate, search bool) int {
 			v := pick(r, domPtr)
 			return &v
 		}
-		x := &PtrRec{K: tag, PS: sp(), V: PNest{PS: sp(), S: pick(r, domPtr)}}
+		x := &PtrRec{K: tag, PS: sp(), V: PNest{PS: sp(), S: pick(r, domPtr)}, NS: PName(pick(r, domPtr))}
 		if r.P(0.75) {
 			x.PN = &PNest{PS: sp(), S: pick(r, domPtr)}
 		}
@@ -167,6 +177,7 @@ func (w *World) ptrScenario(gate, search bool) int {
 		set("PS", y.PS)
 		set("V.PS", y.V.PS)
 		y.V.S = canon("V.S", y.V.S)
+		y.NS = PName(canon("NS", string(y.NS)))
 		if y.PN != nil {
 			set("PN.PS", y.PN.PS)
 			y.PN.S = canon("PN.S", y.PN.S)
@@ -338,7 +349,7 @@ func (w *World) ptrScenario(gate, search bool) int {
 		}
 		if search && len(model) > 0 {
 			for q := 0; q < 4 && !w.failed(); q++ {
-				p := pick(r, ptrPaths)
+				p := pick(r, ptrSearchPaths)
 				var us []string
 				for u := range model {
 					us = append(us, u)
